@@ -226,6 +226,24 @@ def other_observations(tier):
         qr.terminal(out=buf, **tkw)
         obs.append({'family': 'cli_terminal', 'exit': status if isinstance(status, int) else 99, 'stdout_sha': hashlib.sha256(out.encode()).hexdigest(),
                     'terminal_sha': hashlib.sha256(buf.getvalue().encode()).hexdigest(), '_what': f'segno {flags} <content>'})
+    # CLI versus API on a version 7 symbol (version information modules exist) for the colour-capable kinds
+    qr7 = segno.make(CONTENT, version=7, micro=False)
+    for kind in ('png', 'svg', 'ppm', 'eps', 'pdf'):
+        for flags, kw in (([], {}), (['--dark', 'darkblue'], {'dark': 'darkblue'}), (['--finder-dark', 'red'], {'finder_dark': 'red'})):
+            if kind in ('eps', 'pdf') and 'finder_dark' in kw:
+                continue
+            tmp = tempfile.mkdtemp(prefix='c12v_', dir=work)
+            try:
+                pth = os.path.join(tmp, 'out.' + kind)
+                status, out, err, tb = run_cli(['--version', '7'] + flags + ['--output', pth, CONTENT])
+                ok = status == 0 and os.path.exists(pth)
+                got = digest(normalise(kind, open(pth, 'rb').read())) if ok else failure(RuntimeError(str(status) + err[:80]))
+                ref = digest(normalise(kind, save_stream(qr7, kind, kw)))
+                obs.append({'family': 'route', 'kind': kind, 'route': 'cli', 'opts': sorted(kw), 'ref_given': sorted(kw), 'ref_forced': [], 'prefix_ok': True,
+                            'exit': status if isinstance(status, int) else 99, 'got': got, 'ref': ref,
+                            '_vec': {'kind': kind, 'route': 'cli --version 7', 'opts': sorted(kw)}})
+            finally:
+                shutil.rmtree(tmp, ignore_errors=True)
     # data URIs of SVG documents whose texts / attributes contain quote characters
     for extra in ({'title': 'say "hi"'}, {'title': 'a="b" c'}, {'desc': "it's"}, {'svgclass': "it's"}, {'svgid': 'x'}):
         vec = {'kind': 'svg', 'route': 'data_uri', 'opts': [], 'given': [], 'forced': ['xmldecl_false', 'nl_false']}
